@@ -480,6 +480,11 @@ class ndarray(object):
 
     # -- indexing
     def __getitem__(self, key):
+        if isinstance(key, (bool, SymBool)):
+            # boolean scalar index: a[True] == a[None], a[False] is empty with a leading axis of length 0
+            if bool(key):
+                return ndarray((1,) + self.shape, self.dtype, list(self._d))
+            return ndarray((0,) + self.shape, self.dtype, [])
         rshape, src, scalar, view = _index_map(self.shape, key)
         d = self._d
         if scalar:
@@ -489,6 +494,10 @@ class ndarray(object):
         return ndarray(rshape, self.dtype, [d[i] for i in src])
 
     def __setitem__(self, key, value):
+        if isinstance(key, (bool, SymBool)):
+            if bool(key):
+                self[...] = value
+            return
         rshape, src, scalar, view = _index_map(self.shape, key)
         kind = self.dtype.kind
         if kind == 'O':
@@ -530,13 +539,37 @@ class ndarray(object):
             return self._view(shape, range(self.size))
         return ndarray(shape, self.dtype, list(self._d))
 
+    def _order_cells(self, order):
+        """cells in the requested flattening order ('C' logical order, 'F' column-major, 'K' / 'A' memory order)"""
+        if order in (None, 'C'):
+            return None
+        if order == 'F':
+            return list(self.transpose()._d)
+        if order in ('K', 'A'):
+            ix = self._idx
+            if ix is None or self._contiguous():
+                return None
+            if order == 'A' and len(set(ix)) == len(ix) and sorted(ix) == list(range(builtins.min(ix), builtins.min(ix) + len(ix))) \
+                    and self.transpose()._contiguous():
+                return [self._buf[i] for i in sorted(ix)]       # Fortran-contiguous: memory order
+            if order == 'A':
+                return None
+            if len(set(ix)) != len(ix):
+                raise ModelGap("ravel(order='K') of an overlapping view")
+            return [self._buf[i] for i in sorted(ix)]
+        raise ValueError("order must be one of 'C', 'F', 'A', or 'K' (got %r)" % (order,))
+
     def ravel(self, order='C'):
+        cells = self._order_cells(order)
+        if cells is not None:
+            return ndarray((self.size,), self.dtype, cells)
         if self._contiguous():
             return self._view((self.size,), range(self.size))
         return ndarray((self.size,), self.dtype, list(self._d))
 
     def flatten(self, order='C'):
-        return ndarray((self.size,), self.dtype, list(self._d))
+        cells = self._order_cells(order)
+        return ndarray((self.size,), self.dtype, cells if cells is not None else list(self._d))
 
     def transpose(self, *axes):
         if len(axes) == 1 and (axes[0] is None or isinstance(axes[0], (tuple, list))):
